@@ -4,6 +4,8 @@ func init() {
 	vHarnesses["H_C07_values"] = H_C07_values
 	vHarnesses["H_C07_values_deep"] = H_C07_values_deep
 	vHarnesses["H_C07_values_wild"] = H_C07_values_wild
+	vHarnesses["H_C07_values_nested"] = H_C07_values_nested
+	vHarnesses["H_C07_values_fan"] = H_C07_values_fan
 }
 
 func vC07(spec vSpec, maxSteps int, wildOK bool, idxMax int) {
@@ -58,6 +60,24 @@ func H_C07_values_wild() {
 	vC07(vSpec{Depth: 2, Width: 2, Kinds: "mlsn", KeyAlpha: "ab", KeyMin: 1, KeyMax: 1, StrAlpha: "x", StrMax: 1, NoListInList: true}, 3, true, 1)
 }
 
+// lists nested directly inside lists are in the domain of un-indexed paths
+func H_C07_values_nested() {
+	d := 3
+	if vTier() == 1 {
+		d = 4
+	}
+	vC07(vSpec{Depth: d, Width: 2, MapWidth: 1, Kinds: "mls", KeyAlpha: "ab", KeyMin: 1, KeyMax: 1, StrAlpha: "x", StrMax: 0}, 3, true, -1)
+}
+
+// values that fan out after an indexed step (wide lists below narrow maps)
+func H_C07_values_fan() {
+	d := 5
+	if vTier() == 1 {
+		d = 6
+	}
+	vC07(vSpec{Depth: d, Width: 2, MapWidth: 1, Kinds: "mls", KeyAlpha: "a", KeyMin: 1, KeyMax: 1, StrAlpha: "x", StrMax: 0, NoListInList: true}, 4, false, 1)
+}
+
 // deep-narrow: two indexed steps separated by plain keys need depth 5
 func H_C07_values_deep() {
 	if vTier() == 1 {
@@ -73,7 +93,7 @@ func init() {
 
 // H_C07_wide: more matches than the internal initial result capacity (32).
 func H_C07_wide() {
-	n := 31 + vChoose(4)*3 // 31, 34, 37, 40
+	n := []int{31, 32, 33, 40}[vChoose(4)] // around the initial capacity (32)
 	l := make([]interface{}, n)
 	bm := make(map[string]interface{}, n)
 	var bvals []interface{}
@@ -94,5 +114,7 @@ func H_C07_wide() {
 	vAssert(vSameMultiset(got2, bvals), "wide: every map entry returned once beyond the initial capacity")
 	got3, _ := Map(m).ValuesForPath("r[0].a[" + m_strconv_Itoa(n-1) + "]")
 	vAssert(len(got3) == 1 && vSame(got3[0], l[n-1]), "wide: indexed access to the last member")
+	got4, err4 := Map(inner).ValuesForPath("a[" + m_strconv_Itoa(n) + "]")
+	vAssert(err4 == nil && len(got4) == 0, "wide: an index one past the end yields nothing")
 	vCover("wide")
 }
